@@ -1,6 +1,8 @@
 import CoercionModel.Model.Api
 import CoercionModel.Proofs.ApiFine
 import CoercionModel.Generated.F9
+import CoercionModel.Model.Skeletons
+import CoercionModel.Generated.F10
 set_option linter.unusedSimpArgs false
 /-
   C12 — A plan executes at most once; repeated or racing Start is rejected safely.
@@ -131,5 +133,12 @@ theorem read_first_unsafe : ∃ t s, ApiFine.run .readFirst {} t = some s ∧ s.
 /-! ### non-vacuity: two racing Starts, the engine, a third Start after the end -/
 example : (run {} [.start, .start, .engineRunning, .start, .engineFinish true, .start]).map (fun s => (s.execs, s.stored, s.waiter)) =
     some (1, .completed, false) := by decide
+
+/-- the Go functions this property's model mirrors still have the shape the model was written against
+    (control-flow skeletons regenerated from /repo on every run, Model/Skeletons): plansStart, runPlan -/
+theorem facts_skeleton :
+    Generated.F10.plansStart = Skeletons.plansStart ∧
+    Generated.F10.runPlan = Skeletons.runPlan := by
+  decide
 
 end Coercion.C12
